@@ -7,7 +7,7 @@ from . import gen, scen
 DAMAGE_KINDS = ["delete", "trunc0", "trunchalf", "garbage"]
 
 
-def make_base(ctx):
+def make_base(ctx, index=None):
     """A history giving two or three versions (sometimes an interrupted one in the middle)."""
     t0 = scen.small_tree(ctx.rng)
     t1, _ = gen.mutate_tree(ctx.rng, t0)
@@ -18,16 +18,25 @@ def make_base(ctx):
         t["c"].setdefault("dir", {"k": "d", "mode": 0o750, "mtime": 10**18 + 1, "c": {
             "in1": {"k": "f", "data": "696e31", "mode": 0o600, "mtime": 10**18 + 2},
             "in2": {"k": "l", "target": "in1", "mtime": 10**18 + 3}}})
+    # a file that sorts first and changes between the first and the second version: when the second backup is interrupted
+    # after its first hunks, the first version's entry for it is shadowed in the stitched listing of the second
+    for k, t in enumerate((t0, t1, t2)):
+        v = min(k, 1)
+        t["c"][".0first"] = {"k": "f", "data": (b"first-v%d" % v).hex(), "mode": 0o644, "mtime": 10**18 + 100 * v}
     o = [scen.small_opts(ctx.rng) for _ in range(3)]
     if ctx.rng.random() < 0.6:
         for x in o:
             x["meph"] = ctx.rng.choice([1, 2])
+    if index is not None and index % 2 == 0:
+        for x in o:              # small files share combined blocks
+            x["sfc"], x["mbs"] = 16, 64
+        o[1]["meph"] = ctx.rng.choice([1, 2])       # the interrupted backup gets some hunks out before it is killed
     steps = [{"op": "init"},
              {"op": "mktree", "path": "src", "tree": t0}, {"op": "backup", "opts": o[0]},
              {"op": "mktree", "path": "src", "tree": t1}]
-    interrupted = ctx.rng.random() < 0.4
+    interrupted = ctx.rng.random() < 0.4 if index is None else index % 2 == 0
     if interrupted:
-        steps.append({"op": "backup", "opts": o[1], "plan": {"crash": ctx.rng.randrange(12, 40)}})
+        steps.append({"op": "backup", "opts": o[1], "plan": {"crash": ctx.rng.randrange(12, 40) if index is None else ctx.rng.randrange(24, 44)}})
     else:
         steps.append({"op": "backup", "opts": o[1]})
     steps += [{"op": "mktree", "path": "src", "tree": t2}, {"op": "snap", "path": "src"}, {"op": "walk"}, {"op": "backup", "opts": o[2]}]
@@ -63,7 +72,7 @@ def classify(path):
 
 def build_cases(ctx, nbases, flips_per_file, kinds=DAMAGE_KINDS):
     """phase 1: healthy reference per base; phase 2: one case per (file, damage)"""
-    bases = [make_base(ctx) for _ in range(nbases)]
+    bases = [make_base(ctx, i) for i in range(nbases)]
     ref_cases = []
     for i, b in enumerate(bases):
         b["id"] = f"B{i}"
@@ -81,6 +90,13 @@ def build_cases(ctx, nbases, flips_per_file, kinds=DAMAGE_KINDS):
         b["nbands"] = len([d for d in arch["dirs"] if scen.BAND_RE.match(d)])
         b["probe_ref"] = r[nb + 1:]
         files = sorted(arch["files"])
+        refs = {}
+        for path, v in arch["files"].items():
+            if classify(path) == "hunk" and v.get("t") == "hunk":
+                for e in v["v"]:
+                    for a in e.get("addrs") or []:
+                        refs.setdefault(a["hash"], set()).add(e["apath"])
+        shared = {p for p in files if classify(p) == "block" and len(refs.get(p.split("/")[-1], ())) >= 2}
         for f in files:
             cls = classify(f)
             plans = [(k, None, None) for k in kinds]
@@ -88,6 +104,11 @@ def build_cases(ctx, nbases, flips_per_file, kinds=DAMAGE_KINDS):
                 plans.append(("bitflip", ctx.rng.randrange(0, 4096), ctx.rng.randrange(8)))
             if cls == "head":
                 plans.append(("badversion", None, None))
+            if cls == "block" and f in shared:
+                # a block several entries read from: one flipped bit at EVERY byte of the stored file (a flip that leaves
+                # the block decompressible alters the bytes of some of those files only)
+                for pos in range(min(arch["files"][f].get("raw_len", 48), 96)):
+                    plans.append(("bitflip", pos, (pos * 3) % 8))
             for kind, pos, bit in plans:
                 if cls == "tail" and kind in ("delete", "trunc0"):
                     continue          # absence of the tail is the legal 'incomplete' state, and so is the zero-length
